@@ -863,7 +863,23 @@ impl<'a> Exec<'a> {
                 if a.pct.is_some() {
                     probe("align_with_decimal_min_freq");
                 }
-                let r = self.run(Self::align_args(file, a, table.n()))?;
+                // a third of the alignments are written with -o instead of to the standard output
+                let to_file = (crate::util::fnv_str(file) ^ self.c.sim_seed ^ self.nproc as u64) % 3 == 0;
+                let mut args = Self::align_args(file, a, table.n());
+                if to_file {
+                    args.push("-o".into());
+                    args.push("o/align.out".into());
+                }
+                let mut r = self.run(args)?;
+                if to_file && r.ok() {
+                    if !r.stdout.is_empty() {
+                        return viol("align:writes-to-stdout-although-o-given", format!("{} bytes", r.stdout.len()));
+                    }
+                    let Some(b) = self.dir.read("o/align.out") else { return viol("align:no-output-file", "align -o o/align.out wrote no file".into()) };
+                    r.stdout = b;
+                    self.dir.remove("o/align.out");
+                    probe("align_written_with_o");
+                }
                 let (names, cols) = Self::align_out(&r, "align")?;
                 let exp = table.align_columns(&FilterOpts { min_count: thr, ambig_missing: a.ambig_missing, filter: a.filter, ambig_mask: a.ambig_mask, no_gap_only: a.no_gap_only });
                 if names != table.names {
@@ -896,9 +912,24 @@ impl<'a> Exec<'a> {
                 if pct.is_some() {
                     probe("distance_with_decimal_min_freq");
                 }
-                let r = self.run(Self::distance_args(file, *min_count, *pct, table.n(), *allow_ambig, *threads))?;
+                let to_file = (crate::util::fnv_str(file) ^ self.c.sim_seed ^ self.nproc as u64) % 3 == 0;
+                let mut args = Self::distance_args(file, *min_count, *pct, table.n(), *allow_ambig, *threads);
+                if to_file {
+                    args.push("-o".into());
+                    args.push("o/distance.out".into());
+                }
+                let mut r = self.run(args)?;
                 if !r.ok() {
                     return viol("distance:fails", format!("{}: {}", r.status_str(), r.stderr_tail()));
+                }
+                if to_file {
+                    if !r.stdout.is_empty() {
+                        return viol("distance:writes-to-stdout-although-o-given", format!("{} bytes", r.stdout.len()));
+                    }
+                    let Some(b) = self.dir.read("o/distance.out") else { return viol("distance:no-output-file", "distance -o o/distance.out wrote no file".into()) };
+                    r.stdout = b;
+                    self.dir.remove("o/distance.out");
+                    probe("distance_written_with_o");
                 }
                 let got = match parse_distance(&r.stdout) {
                     Ok(g) => g,
@@ -1217,6 +1248,28 @@ impl StoreWorkload {
                 ops.push(Op::Align { file: "b1".into(), a: AlignJ { min_count: 0, pct: None, filter: SiteFilter::NoFilter, ambig_missing: false, ambig_mask: false, no_gap_only: false } });
                 ops.push(Op::Align { file: "b1".into(), a: gen_alignj(&mut rng, n) });
             }
+            return StoreCase { fastq: BTreeMap::new(), focus: focus.to_string(), samples, extra: BTreeMap::new(), ops, sim_seed: rng.next_u64() >> 1 };
+        }
+        if matches!(focus, "C14" | "C06") && rng.chance(if tier == Tier::Quick { 1 } else { 3 }) {
+            // very many samples (past 64, 128 and 256): anything that keeps a sample set in one
+            // machine word, or a sample index in a byte, breaks here
+            let n = *rng.pick(&[65usize, 66, 70, 129, 130, 256, 257, 260]);
+            let mut o = GenomeOpts::swarm(&mut rng, k);
+            o.len = o.len.min(3 * k + 60);
+            if focus == "C14" {
+                o.repeats = false;
+                o.palindromes = false;
+            }
+            let samples = gen_samples(&mut rng, n, k, &o, "s");
+            let mut ops = vec![Op::Build { out: "b1".into(), samples: (0..n).collect(), k, single_strand: ss, list: true, threads: rng.range(1, 4) }];
+            if focus == "C14" {
+                ops.push(Op::Distance { file: "b1".into(), min_count: 0, pct: None, allow_ambig: rng.chance(50), threads: *rng.pick(&[1usize, 3, 8]) });
+                ops.push(Op::Distance { file: "b1".into(), min_count: rng.range(1, n), pct: None, allow_ambig: false, threads: 2 });
+            } else {
+                ops.push(Op::Align { file: "b1".into(), a: gen_alignj(&mut rng, n) });
+                ops.push(Op::Align { file: "b1".into(), a: gen_alignj(&mut rng, n) });
+            }
+            crate::procsim::probe("more_than_64_samples");
             return StoreCase { fastq: BTreeMap::new(), focus: focus.to_string(), samples, extra: BTreeMap::new(), ops, sim_seed: rng.next_u64() >> 1 };
         }
         let fits64 = k >= 35 && matches!(focus, "C07" | "C10") && rng.chance(25);
